@@ -1,21 +1,13 @@
-//! `fvh`: runs the real fluent-rs crates (path dependencies on /repo) on case lines read from
-//! stdin and prints one canonical observation line per case.  The Lean driver `fvmodel` prints
-//! the model's prediction for the same lines; `check` diffs the two streams.
+//! Shared parts of the harness binaries.  Each area has its own binary `fvh_<area>`
+//! (`src/bin/fvh_<area>.rs`) which runs the real fluent-rs crates (path dependencies on /repo) on
+//! case lines read from stdin and prints one canonical observation line per case.
 use std::io::{BufRead, Write};
 use std::panic;
 
-mod args;
-mod util;
+pub mod util;
 
-fn dispatch(area: &str, payload: &str) -> String {
-    match area {
-        "args" => args::run(payload),
-        _ => "bad-area".to_string(),
-    }
-}
-
-fn main() {
-    // keep panic messages out of stderr noise; they are reported in the observation line
+pub fn run_main(run: fn(&str) -> String) {
+    // panics are reported in the observation line, not on stderr
     panic::set_hook(Box::new(|_| {}));
     let stdin = std::io::stdin();
     let stdout = std::io::stdout();
@@ -25,11 +17,11 @@ fn main() {
             Ok(l) => l,
             Err(_) => break,
         };
-        let (area, payload) = match line.find(' ') {
-            Some(i) => (&line[..i], &line[i + 1..]),
-            None => (&line[..], ""),
+        let payload = match line.find(' ') {
+            Some(i) => &line[i + 1..],
+            None => "",
         };
-        let res = panic::catch_unwind(|| dispatch(area, payload));
+        let res = panic::catch_unwind(|| run(payload));
         let obs = match res {
             Ok(s) => s,
             Err(e) => {
